@@ -59,6 +59,11 @@ pub fn mk_local() -> Local {
 
 /// Compare the two renderings after one event.
 fn compare(on: &Rendered, off: &Rendered, fixed: bool, typed_raw: &str, case: &dyn Fn() -> Value) -> Result<bool, Failure> {
+    compare_with(on, off, fixed, &|b: &str| b == typed_raw, case)
+}
+
+/// `is_raw(candidate of the option-off list)`: is this the raw typed text (which is never curled)?
+pub fn compare_with(on: &Rendered, off: &Rendered, fixed: bool, is_raw: &dyn Fn(&str) -> bool, case: &dyn Fn() -> Value) -> Result<bool, Failure> {
     if on.lonely != off.lonely {
         return Err(Failure::new("variant-differs", format!("on={} off={}", on.short(), off.short()), case()));
     }
@@ -91,7 +96,7 @@ fn compare(on: &Rendered, off: &Rendered, fixed: bool, typed_raw: &str, case: &d
             }
             continue;
         }
-        if b == typed_raw {
+        if is_raw(b) {
             continue; // the raw typed text: not judged forward
         }
         let wrapped = b.len() >= p.len() + t.len() && b.starts_with(&p) && b.ends_with(&t);
